@@ -3437,7 +3437,7 @@ impl CanonicalizeContext {
 				return chem_state_certainty;
 			}
 
-			if name(&first_child) == "mrow" && is_left_paren(as_element(first_child.children()[0])) {
+			if name(&first_child) == "mrow" && !first_child.children().is_empty() && is_left_paren(as_element(first_child.children()[0])) {
 				// debug!("     ...trying again after expanding mrow");
 				return self.is_function_name(node, Some(&first_child.children()));
 			}
